@@ -4,42 +4,56 @@ import (
 	"flag"
 	"fmt"
 	"os"
+	"runtime"
+	"runtime/debug"
+	"runtime/pprof"
 	"strings"
 	"time"
 )
 
 var (
-	flagRepo    = flag.String("repo", "/repo", "repository under verification")
-	flagHarness = flag.String("harness", "/verif/harness", "harness directory")
-	flagProp    = flag.String("p", "", "property id (C01..C20)")
-	flagTier    = flag.String("tier", "quick", "quick | thorough")
-	flagReplay  = flag.String("replay", "", "replay a counterexample file natively")
-	flagRun     = flag.String("run", "", "debug: run one entry concretely: entry|arg1|arg2…")
-	flagSym     = flag.String("sym", "", "debug: run one entry symbolically: entry|arg1|arg2…")
-	flagWorkers = flag.Int("workers", 16, "worker goroutines")
-	flagVerbose = flag.Bool("v", false, "verbose")
-	flagSolver  = flag.String("solver", "", "override solver back end")
-	flagOut     = flag.String("evidence", "/verif/evidence", "evidence directory")
-	flagConform = flag.Bool("conform", false, "run the encoder conformance corpus only")
+	flagRepo      = flag.String("repo", "/repo", "repository under verification")
+	flagHarness   = flag.String("harness", "/verif/harness", "harness directory")
+	flagProp      = flag.String("p", "", "property id (C01..C20)")
+	flagTier      = flag.String("tier", "quick", "quick | thorough")
+	flagReplay    = flag.String("replay", "", "replay a counterexample file natively")
+	flagRun       = flag.String("run", "", "debug: run one entry concretely: entry|arg1|arg2…")
+	flagSym       = flag.String("sym", "", "debug: run one entry symbolically: entry|arg1|arg2…")
+	flagWorkers   = flag.Int("workers", 16, "worker goroutines")
+	flagVerbose   = flag.Bool("v", false, "verbose")
+	flagSolver    = flag.String("solver", "", "override solver back end")
+	flagOut       = flag.String("evidence", "/verif/evidence", "evidence directory")
+	flagProfile   = flag.String("cpuprofile", "", "debug: write CPU profile")
+	flagConform   = flag.Bool("conform", false, "run the encoder conformance corpus only")
 	flagSolverLog = flag.String("solverlog", "", "debug: write solver transcript of worker 0 to this file")
 )
 
 func main() {
+	os.Exit(realMain())
+}
+
+func realMain() int {
 	flag.Parse()
+	debug.SetGCPercent(1000)
+	if *flagProfile != "" {
+		f, _ := os.Create(*flagProfile)
+		pprof.StartCPUProfile(f)
+		defer pprof.StopCPUProfile()
+	}
 	if tier := os.Getenv("VERIF_TIER"); tier != "" && !flagPassed("tier") {
 		*flagTier = tier
 	}
 	start := time.Now()
 	switch {
 	case *flagRun != "":
-		os.Exit(debugRun(*flagRun, false))
+		return debugRun(*flagRun, false)
 	case *flagSym != "":
-		os.Exit(debugRun(*flagSym, true))
+		return debugRun(*flagSym, true)
 	case *flagConform:
 		sh, err := LoadProgram(*flagRepo, *flagHarness)
 		if err != nil {
 			fmt.Println("INCONCLUSIVE load:", err)
-			os.Exit(2)
+			return 2
 		}
 		n, bad, err := runConformance(sh, 0)
 		fmt.Printf("conformance: %d cases, %d mismatches, err=%v (%.1fs)\n", n, len(bad), err, time.Since(start).Seconds())
@@ -47,16 +61,17 @@ func main() {
 			fmt.Println("  MISMATCH", b)
 		}
 		if err != nil || len(bad) > 0 {
-			os.Exit(2)
+			return 2
 		}
 	case *flagReplay != "":
-		os.Exit(replayCommand(*flagProp, *flagReplay))
+		return replayCommand(*flagProp, *flagReplay)
 	case *flagProp != "":
-		os.Exit(runCheck(*flagProp, *flagTier))
+		return runCheck(*flagProp, *flagTier)
 	default:
 		flag.Usage()
-		os.Exit(2)
+		return 2
 	}
+	return 0
 }
 
 func flagPassed(name string) bool {
@@ -76,6 +91,10 @@ func debugRun(spec string, symbolic bool) int {
 		fmt.Println("INCONCLUSIVE load:", err)
 		return 2
 	}
+	var ms runtime.MemStats
+	runtime.GC()
+	runtime.ReadMemStats(&ms)
+	fmt.Printf("live heap after load: %d MB\n", ms.HeapAlloc>>20)
 	entry := sh.entry(parts[0])
 	if entry == nil {
 		fmt.Println("no entry", parts[0])
